@@ -333,6 +333,8 @@ func (f *fakeConsul) classify(node string, r *http.Request, body []byte) *reqRec
 			rec.Q = "cid.get"
 		case r.Method == "PUT" && key == fakeKey && q.Has("acquire"):
 			rec.Q, rec.Sid, rec.Val = "kv.acquire", f.sessNo(q.Get("acquire")), hostOf(body)
+		case r.Method == "DELETE" && key == fakeKey:
+			rec.Q = "kv.delete" // plain delete: Consul removes the key whoever holds it
 		case r.Method == "PUT" && key == fakeKey && q.Has("release"):
 			rec.Q, rec.Sid = "kv.release", f.sessNo(q.Get("release"))
 		case r.Method == "PUT" && key == fakeCIDKey && q.Has("cas"):
@@ -475,6 +477,21 @@ func (f *fakeConsul) apply(rec *reqRec, ans string, body []byte) (int, []byte) {
 			return 500, []byte("rpc error: invalid session")
 		}
 		return 200, []byte(res)
+	case "kv.delete":
+		rec.Sid = f.key.sess // the session that held the lock when the delete arrived (0 = nobody)
+		if ans != "ok" && ans != "lost" {
+			return fail()
+		}
+		if f.key.exists {
+			f.old = f.key
+			f.index++
+			f.key = kvEntry{}
+		}
+		if ans != "ok" {
+			return fail()
+		}
+		rec.Sent = "true"
+		return 200, []byte("true")
 	case "kv.release":
 		res := f.release(rec.Sid, body, applied)
 		if ans != "ok" {
